@@ -138,6 +138,10 @@ def discharge(facts, tn, f, bi, t, guard_rows):
             g = guards.holds(f, bi, lambda fa: fa[0] == "cmp" and (fa[1] == "Le" and fa[2] == ("c", c) and strip_bb(fa[3]) == ao or fa[1] == "Ge" and fa[3] == ("c", c) and strip_bb(fa[2]) == ao))
             if g:
                 return "guard", "x - %d behind %s" % (c, guards.show_fact(f, g[1]))
+            if c <= 48:
+                g = guards.holds(f, bi, lambda fa: fa[0] == "bool" and fa[2] is True and fa[1][0] == "call" and norm(fa[1][2]).endswith(("is_ascii_digit", "is_ascii_hexdigit", "is_ascii_alphanumeric")) and strip_bb(origin_deep(sy, fa[1][3][0])) == ao)
+                if g:
+                    return "guard", "x - %d behind %s (x >= b'0')" % (c, guards.show_fact(f, g[1]))
             g = guards.holds(f, bi, lambda fa: (fa[0] == "cmp" and (fa[1] in ("Ne", "Gt") and fa[3] == ("c", 0) and strip_bb(fa[2]) == strip_bb(a) and c == 1 or fa[1] == "Ge" and fa[3] == ("c", c) and strip_bb(fa[2]) == strip_bb(a) or fa[1] == "Le" and fa[2] == ("c", c) and strip_bb(fa[3]) == strip_bb(a) or fa[1] == "Gt" and fa[3][0] == "c" and fa[3][1] >= c - 1 and strip_bb(fa[2]) == strip_bb(a))) or (fa[0] == "notin" and 0 in fa[2] and strip_bb(fa[1]) == strip_bb(a) and c == 1))
             if g:
                 return "guard", "x - %d behind %s" % (c, guards.show_fact(f, g[1]))
